@@ -23,4 +23,18 @@ MUTANTS = [
     dict(id="C02", name="c02-tags-hashed", edits=[("core/objects.py", "            xpmtype = value.__xpmtype__\n            self._hashupdate(xpmtype.identifier.name.encode(\"utf-8\"))", "            xpmtype = value.__xpmtype__\n            self._hashupdate(xpmtype.identifier.name.encode(\"utf-8\"))\n            self._hashupdate(repr(sorted(value.__xpm__._tags.items())).encode())")]),
     dict(id="C02", name="c02-meta-config-hashed", edits=[("core/objects.py", "                if (\n                    argvalue is not None\n                    and isinstance(argvalue, Config)\n                    and argvalue.__xpm__.meta\n                ):\n                    continue", "                pass")]),
     # (hashing generated parameters is an equivalent mutant here: generated values are paths, ignored by type)
+    # ---- C03
+    dict(id="C03", name="c03-no-list-length", checks=["C03", "C01"], edits=[("core/objects.py", '            self._hashupdate(struct.pack("!d", len(values)))', "            pass")]),
+    dict(id="C03", name="c03-no-name-id", edits=[("core/objects.py", "                self._hashupdate(HashComputer.NAME_ID)", "                pass")]),
+    dict(id="C03", name="c03-no-argument-name", edits=[("core/objects.py", "                # Hash name\n                self.update(argument.name)", "                # Hash name")]),
+    dict(id="C03", name="c03-enum-without-class", checks=["C03", "C01"], edits=[("core/objects.py", 'f"{k.__module__}.{k.__qualname__ }:{value.name}".encode("utf-8"),', 'f"{value.name}".encode("utf-8"),')]),
+    dict(id="C03", name="c03-no-task-id", edits=[("core/objects.py", "                self._hashupdate(HashComputer.TASK_ID)\n                self.update(value.__xpm__.task)", "                pass")]),
+    dict(id="C03", name="c03-init-tasks-sorted", edits=[("core/objects.py", "                for init_task in self.init_tasks:\n                    hasher.update(init_task.__xpm__.raw_identifier.all)", "                for b in sorted(t.__xpm__.raw_identifier.all for t in self.init_tasks):\n                    hasher.update(b)")]),
+    dict(id="C03", name="c03-no-init-tasks", edits=[("core/objects.py", "            if self.init_tasks:\n                hasher.update(HashComputer.INIT_TASKS)", "            if False:\n                hasher.update(HashComputer.INIT_TASKS)")]),
+    dict(id="C03", name="c03-no-pre-tasks", edits=[("core/objects.py", "            for task_id in sorted(pre_tasks_ids):\n                hasher.update(task_id)", "            pass")]),
+    dict(id="C03", name="c03-dict-keys-not-hashed", edits=[("core/objects.py", "            for key, value in items:\n                self.update(key)", "            for key, value in items:\n                pass")]),
+    dict(id="C03", name="c03-type-id-not-hashed", edits=[("core/objects.py", '            self._hashupdate(xpmtype.identifier.name.encode("utf-8"))', "            pass")]),
+    dict(id="C03", name="c03-int-as-float", checks=["C03", "C01"], edits=[("core/objects.py", '            self._hashupdate(HashComputer.INT_ID)\n            self._hashupdate(struct.pack("!q", value))', '            self._hashupdate(HashComputer.FLOAT_ID)\n            self._hashupdate(struct.pack("!d", float(value)))')]),
+    dict(id="C03", name="c03-constant-skipped-when-default", edits=[("core/objects.py", "                if not argument.constant and (", "                if (")]),
+    dict(id="C03", name="c03-cycle-distance-dropped", edits=[("core/objects.py", '                    self._hashupdate(struct.pack("!q", loop_ix))', "                    pass")]),
 ]
